@@ -322,6 +322,14 @@ namespace {
         }
       }
       max_events = 24 * (static_cast<std::size_t>(this->iterMax) + 2) + 24;
+      // a solver object is reused from one resolution to the next (and `iter` / `is_delta_zeros_defined` have no
+      // initialiser): they hold whatever the previous resolution left. solveNonLinearSystem must reset them.
+      this->iter = static_cast<unsigned short>(this->iterMax + 3u);
+      this->is_delta_zeros_defined = true;
+#if C08_SOLVER == 5
+      this->levmar_first = false;
+      this->levmar_mu = 123.0;
+#endif
       bool r = false;
       try {
         r = this->solveNonLinearSystem();
